@@ -276,6 +276,7 @@ class Impl:
             self.sv = Solver(self.problem, SolverParameters(eps=eps, r=r, itersLimit=lim, evolventDensity=m,
                                                            refineSolution=self.refine))
             self.events = []
+            self.local_results = []
             self.printed_evals = 0
             self.printed_log = 0
             if self.listeners == "rec":
@@ -299,6 +300,10 @@ class Impl:
             out = _Stdout(self.events)
             with contextlib.redirect_stdout(out):
                 self.last_solution = self.sv.Solve()
+            if self.refine:
+                b = self.last_solution.bestTrials[0]
+                self.local_results.append((self.last_solution.numberOfLocalTrials, b.functionValues[0].value,
+                                           [float(v) for v in b.point.floatVariables]))
             return f"{self._fmt_ps()} {self._fmt_new()}"
         if c == "sv.refine":
             self.sv.DoLocalRefinement(-1)
